@@ -79,7 +79,7 @@ namespace TrRouting
           {
             throw ParameterException(ParameterException::Type::INVALID_ORIGIN);
           }
-          origin = Point(std::stod(latitudeLongitudeVector[1]), std::stod(latitudeLongitudeVector[0]));
+          origin = Point(CommonParameters::getCoordinateValue(latitudeLongitudeVector[1]), CommonParameters::getCoordinateValue(latitudeLongitudeVector[0]));
         }
         catch (...)
         {
@@ -95,7 +95,7 @@ namespace TrRouting
           {
             throw ParameterException(ParameterException::Type::INVALID_DESTINATION);
           }
-          destination = Point(std::stod(latitudeLongitudeVector[1]), std::stod(latitudeLongitudeVector[0]));
+          destination = Point(CommonParameters::getCoordinateValue(latitudeLongitudeVector[1]), CommonParameters::getCoordinateValue(latitudeLongitudeVector[0]));
         }
         catch (...)
         {
